@@ -28,6 +28,12 @@ def edit_string(s: str, rng: random.Random) -> str:
     return s
 
 
+def _setting_tags(st):
+    from engines.solversim import setting_tags
+
+    return setting_tags(st)
+
+
 def _iter(m):
     stack = [m]
     while stack:
@@ -65,7 +71,7 @@ def run_api_op(kind, op, op_index, solver, sc, h, recog: Recognizer, world, reco
         from gen.formulas import features_with_grammar
 
         d = {"property": "C18", "clause": clause, "op_index": op_index, "solver": i, "detail": detail[:400],
-             "features": features_with_grammar(sc["formula"], sc["grammar"])}
+             "features": features_with_grammar(sc["formula"], sc["grammar"]) + _setting_tags(sc["settings"])}
         if sig:
             d["signature"] = sig
         viol.append(d)
@@ -320,7 +326,7 @@ def run_api_op(kind, op, op_index, solver, sc, h, recog: Recognizer, world, reco
         if base_kind == "repair":
             if not is_successful(res):
                 record["outcomes"].append([kind, i, "repair", "nothing", sat])
-                if sat is True and not z3_trouble():
+                if sat is True and (unambiguous or arg is ref_tree) and not z3_trouble():
                     v("repair_gives_up_on_valid_input", f"repair({inp_str!r}) returned Nothing for an input that satisfies the constraint")
                 return
             out_tree = res.unwrap()
@@ -331,7 +337,10 @@ def run_api_op(kind, op, op_index, solver, sc, h, recog: Recognizer, world, reco
             return
         out_str = str(out_tree)
         record["outcomes"].append([kind, i, base_kind, out_str[:80], sat])
-        if base_kind == "repair" and sat is True and (unambiguous or inp_tree is not None):
+        # (for an ambiguous string passed as text ISLa may parse a different tree than
+        # the one the verdict `sat` was computed for: judged only if the tree itself
+        # was passed, or the string has one parse)
+        if base_kind == "repair" and sat is True and (unambiguous or arg is ref_tree):
             if out_str != inp_str:
                 v("repair_changes_valid_input", f"repair({inp_str!r}) -> {out_str!r} although the input already satisfies the constraint")
             else:
